@@ -1,17 +1,15 @@
-SPECIFICATION GSpec
+SPECIFICATION Spec
 CONSTANTS
   Slots <- Slots2
-  Types <- TypesB
-  ExtChoices <- Ext2b
+  Types <- TypesA
+  ExtChoices <- ExtOne
   Vals = {0, 1}
-  MaxOps = 5
+  MaxOps = 1
   AssignImpl = "fixed"
   WM = 8
   ConstructSlots <- Slots2
-  Unbounded = FALSE
-  Ops <- AllOps
-  EmitAll = TRUE
-VIEW View
-ACTION_CONSTRAINT EmitHist
+  Unbounded = TRUE
+  Ops <- CoreOps
 INVARIANTS TypeOK Refines NoAlias NoUseAfterFree NoDoubleFree NoLeak ConfigKept RoundTrip
+PROPERTIES SourceUnchanged
 CHECK_DEADLOCK FALSE
